@@ -2,16 +2,19 @@
 use crate::common::*;
 use sentinel_core::api::EntryBuilder;
 use sentinel_core::base::{
-    BaseSlot, BlockError, BlockType, EntryContext, EntryStrongPtr, RuleCheckSlot, SlotChain,
-    StatPrepareSlot, StatSlot, TokenResult,
+    BaseSlot, BlockError, BlockType, ContextPtr, EntryContext, EntryStrongPtr, ResourceType, ResourceWrapper,
+    RuleCheckSlot, SentinelEntry, SlotChain, StatPrepareSlot, StatSlot, TokenResult, TrafficType,
 };
-use std::sync::{Arc, Mutex};
+use std::sync::atomic::{AtomicUsize, Ordering};
+use std::sync::{Arc, Mutex, RwLock};
 
 type Log = Arc<Mutex<Vec<String>>>;
 
 struct Pre {
     id: usize,
     order: u32,
+    /// a preparation slot may write anything into the context, e.g. a blocked verdict (which the chain must discard)
+    dirty: Option<u8>,
     log: Log,
 }
 impl BaseSlot for Pre {
@@ -20,8 +23,11 @@ impl BaseSlot for Pre {
     }
 }
 impl StatPrepareSlot for Pre {
-    fn prepare(&self, _ctx: &mut EntryContext) {
+    fn prepare(&self, ctx: &mut EntryContext) {
         self.log.lock().unwrap().push(format!("pre{}", self.id));
+        if let Some(t) = self.dirty {
+            ctx.set_result(TokenResult::new_blocked_with_msg(BlockType::Other(t), format!("pre{}", self.id)));
+        }
     }
 }
 
@@ -34,7 +40,9 @@ enum Res {
 struct Chk {
     id: usize,
     order: u32,
-    res: Res,
+    /// result of the n-th call (the last one repeats)
+    script: Vec<Res>,
+    calls: AtomicUsize,
     log: Log,
 }
 impl BaseSlot for Chk {
@@ -45,7 +53,8 @@ impl BaseSlot for Chk {
 impl RuleCheckSlot for Chk {
     fn check(&self, _ctx: &mut EntryContext) -> TokenResult {
         self.log.lock().unwrap().push(format!("chk{}", self.id));
-        match self.res {
+        let n = self.calls.fetch_add(1, Ordering::SeqCst);
+        match self.script[n.min(self.script.len() - 1)] {
             Res::Pass => TokenResult::new_pass(),
             Res::Blocked(t) => TokenResult::new_blocked_with_msg(BlockType::Other(t), format!("slot{}", self.id)),
             Res::Wait(ns) => TokenResult::new_should_wait(ns),
@@ -84,11 +93,13 @@ pub struct Exec {
     log: Log,
     chain: Option<Arc<SlotChain>>,
     entry: Option<EntryStrongPtr>,
+    /// a hand-made context (and its entry) on which `SlotChain::entry` / `exit` are called directly, several times
+    raw: Option<(ContextPtr, Arc<RwLock<SentinelEntry>>)>,
 }
 
 impl Exec {
     pub fn new(case_no: u64) -> Self {
-        Exec { case_no, log: Arc::new(Mutex::new(Vec::new())), chain: None, entry: None }
+        Exec { case_no, log: Arc::new(Mutex::new(Vec::new())), chain: None, entry: None, raw: None }
     }
     fn take_log(&self) -> String {
         let mut l = self.log.lock().unwrap();
@@ -103,28 +114,71 @@ impl CaseExec for Exec {
         match op.name.as_str() {
             "chain" => {
                 let mut sc = SlotChain::new();
-                for (id, o) in op.list("pre").iter().enumerate() {
-                    sc.add_stat_prepare_slot(Arc::new(Pre { id, order: o.parse().unwrap(), log: self.log.clone() }));
+                for (id, spec) in op.list("pre").iter().enumerate() {
+                    let (o, dirty) = match spec.split_once(":D") {
+                        Some((o, t)) => (o, Some(t.parse().unwrap())),
+                        None => (spec.as_str(), None),
+                    };
+                    sc.add_stat_prepare_slot(Arc::new(Pre { id, order: o.parse().unwrap(), dirty, log: self.log.clone() }));
                 }
                 for (id, spec) in op.list("chk").iter().enumerate() {
                     let (o, r) = spec.split_once(':').unwrap();
-                    let res = if r == "P" {
-                        Res::Pass
-                    } else if let Some(t) = r.strip_prefix('B') {
-                        Res::Blocked(t.parse().unwrap())
-                    } else if let Some(t) = r.strip_prefix('W') {
-                        Res::Wait(t.parse().unwrap())
-                    } else {
-                        panic!("harness: bad check result")
-                    };
-                    sc.add_rule_check_slot(Arc::new(Chk { id, order: o.parse().unwrap(), res, log: self.log.clone() }));
+                    let script: Vec<Res> = r
+                        .split('/')
+                        .map(|r| {
+                            if r == "P" {
+                                Res::Pass
+                            } else if let Some(t) = r.strip_prefix('B') {
+                                Res::Blocked(t.parse().unwrap())
+                            } else if let Some(t) = r.strip_prefix('W') {
+                                Res::Wait(t.parse().unwrap())
+                            } else {
+                                panic!("harness: bad check result")
+                            }
+                        })
+                        .collect();
+                    sc.add_rule_check_slot(Arc::new(Chk { id, order: o.parse().unwrap(), script, calls: AtomicUsize::new(0), log: self.log.clone() }));
                 }
                 for (id, o) in op.list("stat").iter().enumerate() {
                     sc.add_stat_slot(Arc::new(Stat { id, order: o.parse().unwrap(), log: self.log.clone() }));
                 }
                 self.chain = Some(Arc::new(sc));
+                self.raw = None;
                 "ok".into()
             }
+            // `SlotChain::entry` / `SlotChain::exit` called directly on one hand-made context, any number of times
+            "rentry" => {
+                let sc = self.chain.clone().expect("harness: no chain");
+                if self.raw.is_none() {
+                    let mut ctx = EntryContext::new();
+                    ctx.set_resource(ResourceWrapper::new(format!("c13-{}", self.case_no), ResourceType::Common, TrafficType::Inbound));
+                    let ctx = Arc::new(RwLock::new(ctx));
+                    let entry = Arc::new(RwLock::new(SentinelEntry::new(Arc::clone(&ctx), Arc::clone(&sc))));
+                    ctx.write().unwrap().set_entry(Arc::downgrade(&entry));
+                    self.raw = Some((ctx, entry));
+                }
+                let ctx = Arc::clone(&self.raw.as_ref().unwrap().0);
+                let r = sc.entry(ctx);
+                match r {
+                    TokenResult::Blocked(e) => {
+                        let ty = match e.block_type() {
+                            BlockType::Other(t) => format!("{}", t),
+                            o => format!("{:?}", o),
+                        };
+                        format!("res=blocked:{}:{} log={}", ty, e.block_msg(), self.take_log())
+                    }
+                    TokenResult::Wait(ns) => format!("res=wait:{} log={}", ns, self.take_log()),
+                    TokenResult::Pass => format!("res=pass log={}", self.take_log()),
+                }
+            }
+            "rexit" => match self.raw.as_ref() {
+                Some((ctx, _)) => {
+                    let sc = self.chain.clone().expect("harness: no chain");
+                    sc.exit(Arc::clone(ctx));
+                    format!("log={}", self.take_log())
+                }
+                None => "noentry".into(),
+            },
             "build" => {
                 let sc = self.chain.clone().expect("harness: no chain");
                 let b = EntryBuilder::new(format!("c13-{}", self.case_no)).with_slot_chain(sc);
